@@ -193,6 +193,7 @@ pub fn run_topic(topic: &str, cx: &mut Ctx) -> bool {
         "macros" => macros(cx),
         "hascoal" => hascoal(cx),
         "fold" => fold(cx),
+        "refs" => refs(cx),
         _ => return false,
     }
     true
@@ -1131,6 +1132,165 @@ pub fn fold(cx: &mut Ctx) {
             let k = c.bind.len();
             c.forms = (0..(1u32 << k)).map(|mask| format!("sub:{}", (0..k).map(|j| if mask >> j & 1 == 1 { '1' } else { '0' }).collect::<String>())).collect();
             cx.out(c);
+        }
+    }
+}
+
+// ---------------------------------------------------------------------------------------------
+// C12: name resolution, program references, depth
+
+fn edge(kind: usize, target: &str) -> T {
+    let q = || id(target);
+    let one = || lit(V::Int(1));
+    match kind {
+        0 => bin("+", q(), one()),                                                                      // bare identifier
+        1 => bin("+", idx(mcall(T::List(vec![q()]), "map", vec![id("x"), id("x")]), lit(V::Int(0))), one()), // macro range
+        2 => idx(mcall(T::List(vec![one()]), "map", vec![id("x"), bin("+", q(), id("x"))]), lit(V::Int(0))), // macro body
+        3 => bin("+", call("max", vec![q(), lit(V::Int(-1000))]), one()),                                // call argument
+        4 => bin("+", call("coalesce", vec![q(), lit(V::Int(0))]), one()),                               // coalesce argument
+        5 => bin("+", tern(call("has", vec![q()]), lit(V::Int(5)), lit(V::Int(0))), one()),              // has argument
+        6 => bin("+", call("size", vec![T::FStr(vec![Seg::Expr(q())])]), one()),                        // f-string segment
+        7 => bin("+", idx(T::List((0..80).map(|i| lit(V::Int(i))).collect()), q()), one()),              // index expression
+        8 => bin("||", q(), lit(V::Bool(true))),                                                        // absorbing edge
+        _ => bin("+", idx(mcall(T::List(vec![one()]), "filter", vec![id("x"), bin(">", q(), lit(V::Int(-5)))]), lit(V::Int(0))), one()), // macro predicate
+    }
+}
+const NEDGE: usize = 10;
+
+pub fn refs(cx: &mut Ctx) {
+    let names = ["p1", "p2", "p3", "p4"];
+    let leafs: Vec<T> = vec![lit(V::Int(0)), id("v"), bin("/", lit(V::Int(1)), id("zero")), id("nope")];
+    let child = serde_json::json!({"child": true});
+    // every graph on <= 3 programs with out-degree <= 1 (target or leaf), every construct on the edges (<= 3 edges)
+    for n in 1..=3usize {
+        // succ[i] in 0..n (a program) or n.. (a leaf kind)
+        let choices = n + leafs.len();
+        let total = choices.pow(n as u32);
+        for code in 0..total {
+            let mut succ = Vec::new();
+            let mut c0 = code;
+            for _ in 0..n {
+                succ.push(c0 % choices);
+                c0 /= choices;
+            }
+            let nedges = succ.iter().filter(|s| **s < n).count();
+            let kinds_total = NEDGE.pow(nedges as u32);
+            for kc in 0..kinds_total {
+                if nedges >= 2 && !cx.thorough && cx.rng.below(if nedges == 2 { 6 } else { 60 }) != 0 {
+                    continue;
+                }
+                let mut kc0 = kc;
+                let mut c = cx.case(id("p1"));
+                for i in 0..n {
+                    let body = if succ[i] < n {
+                        let k = kc0 % NEDGE;
+                        kc0 /= NEDGE;
+                        edge(k, names[succ[i]])
+                    } else {
+                        leafs[succ[i] - n].clone()
+                    };
+                    c.progs.insert(names[i].to_string(), body);
+                }
+                c.bind.insert("v".into(), V::Int(7));
+                c.bind.insert("zero".into(), V::Int(0));
+                c.forms = forms(&["bound", "thread"]);
+                c.extra = child.clone();
+                cx.out(c);
+            }
+        }
+    }
+    // diamonds and out-degree 2 on up to 4 programs
+    for _ in 0..(if cx.thorough { 1500 } else { 150 }) {
+        let n = 2 + cx.rng.below(3) as usize;
+        let mut c = cx.case(id("p1"));
+        for i in 0..n {
+            let mk = |cx: &mut Ctx| -> T {
+                // acyclic: only later programs are referenced (a cycle with two references per program
+                // takes 2^32 steps to reach the depth error through absorbing constructs)
+                let s = i + 1 + cx.rng.below((n + 2 - i) as u64) as usize;
+                if s < n {
+                    edge(cx.rng.below(NEDGE as u64) as usize, names[s])
+                } else {
+                    lit(V::Int(1))
+                }
+            };
+            let a = mk(cx);
+            let b = mk(cx);
+            let body = match cx.rng.below(3) {
+                0 => a,
+                1 => bin("+", a, b),
+                _ => tern(bin(">", a, lit(V::Int(0))), b, lit(V::Int(3))),
+            };
+            c.progs.insert(names[i].to_string(), body);
+        }
+        c.forms = forms(&["bound"]);
+        c.extra = child.clone();
+        cx.out(c);
+    }
+    // chains of length 1..64 through plain references and through each construct
+    let th = cx.thorough;
+    for len in (1..=64usize).filter(|l| th || *l <= 20 || *l % 4 == 0 || (30..=36).contains(l)) {
+        for kind in 0..NEDGE {
+            if kind > 0 && !(cx.thorough || len % 8 == 0 || len <= 4 || (15..=18).contains(&len) || (31..=34).contains(&len)) {
+                continue;
+            }
+            let mut c = cx.case(id("q1"));
+            for i in 1..=len {
+                let body = if i == len { lit(V::Int(0)) } else { edge(kind, &format!("q{}", i + 1)) };
+                c.progs.insert(format!("q{}", i), body);
+            }
+            c.forms = forms(&["bound", "thread"]);
+            c.extra = child.clone();
+            cx.out(c);
+        }
+    }
+    // loop iterations do not consume the depth budget
+    for n in [1usize, 31, 33, 64, 200] {
+        let mut c = cx.case(mcall(id("l"), "map", vec![id("x"), bin("+", id("x"), id("p"))]));
+        c.bind.insert("l".into(), V::List((0..n as i64).map(V::Int).collect()));
+        c.progs.insert("p".into(), bin("+", id("r"), lit(V::Int(1))));
+        c.progs.insert("r".into(), lit(V::Int(1)));
+        c.forms = forms(&["bound"]);
+        cx.out(c);
+    }
+    // name collisions: one name as type / variable / program / function / macro / map field
+    let recording = |v: i64| serde_json::json!({"o":"ok","v":V::Int(v).to_json()});
+    let coll_names = ["int", "size", "has", "all", "x", "string", "p"];
+    for name in coll_names {
+        for as_var in [false, true] {
+            for as_prog in [false, true] {
+                for as_func in [false, true] {
+                    // calls take a variable so that nothing is folded at compile time (the compiler
+                    // assumes built-ins are not rebound)
+                    let uses: Vec<T> = vec![
+                        id(name),
+                        call(name, vec![id("s12")]),
+                        mcall(T::List(vec![id("one")]), name, vec![id("e"), id("tt")]),
+                        mcall(id("sab"), name, vec![]),
+                        sel(id("mm"), name),
+                        bin("+", T::List(vec![id(name)]), T::List(vec![])),
+                    ];
+                    for u in uses {
+                        let mut c = cx.case(u);
+                        if as_var {
+                            c.bind.insert(name.to_string(), V::Int(111));
+                        }
+                        if as_prog {
+                            c.progs.insert(name.to_string(), lit(V::Int(222)));
+                        }
+                        if as_func {
+                            c.funcs.insert(name.to_string(), recording(333));
+                        }
+                        c.bind.insert("mm".into(), V::Map(vec![(name.to_string(), V::Int(444)), ("other".into(), V::Int(1))]));
+                        c.bind.insert("s12".into(), V::Str("12".into()));
+                        c.bind.insert("sab".into(), V::Str("ab".into()));
+                        c.bind.insert("one".into(), V::Int(1));
+                        c.bind.insert("tt".into(), V::Bool(true));
+                        c.forms = forms(&["bound", "json"]);
+                        cx.out(c);
+                    }
+                }
+            }
         }
     }
 }
